@@ -11,6 +11,7 @@ import (
 	"errors"
 	"flag"
 	"fmt"
+	"io"
 	"os"
 	"strings"
 
@@ -83,6 +84,82 @@ func extract(data []byte) (class string, list string, sds []sei.SEIData) {
 		ss[i] = hx.HexU(uint64(sds[i].Type())) + ":" + hx.Hex(sds[i].Payload())
 	}
 	return class, strings.Join(ss, ";"), sds
+}
+
+// quirkRS is an io.ReadSeeker that is NOT an io.ByteReader and uses the freedom the io.Reader contract leaves:
+// mode 0 returns the last bytes together with io.EOF in the same call, mode 1 returns one byte per call, mode 2 at most
+// half of what was asked for (at least one byte).
+type quirkRS struct {
+	data []byte
+	pos  int64
+	mode int
+}
+
+func (q *quirkRS) Read(p []byte) (int, error) {
+	if len(p) == 0 {
+		return 0, nil
+	}
+	if q.pos >= int64(len(q.data)) {
+		return 0, io.EOF
+	}
+	n := len(p)
+	switch q.mode {
+	case 1:
+		n = 1
+	case 2:
+		n = (n + 1) / 2
+	}
+	if rest := int(int64(len(q.data)) - q.pos); n > rest {
+		n = rest
+	}
+	copy(p, q.data[q.pos:q.pos+int64(n)])
+	q.pos += int64(n)
+	if q.mode == 0 && q.pos == int64(len(q.data)) {
+		return n, io.EOF
+	}
+	return n, nil
+}
+
+func (q *quirkRS) Seek(off int64, whence int) (int64, error) {
+	var abs int64
+	switch whence {
+	case io.SeekStart:
+		abs = off
+	case io.SeekCurrent:
+		abs = q.pos + off
+	case io.SeekEnd:
+		abs = int64(len(q.data)) + off
+	}
+	if abs < 0 {
+		return 0, errors.New("negative position")
+	}
+	q.pos = abs
+	return abs, nil
+}
+
+// extractQuirk: ExtractSEIData through the reader kinds of quirkRS; the outcome may not depend on the kind of reader.
+func extractQuirk(data []byte, mode int) (class string, list string) {
+	var err error
+	var sds []sei.SEIData
+	p := hx.Try(func() { sds, err = sei.ExtractSEIData(&quirkRS{data: hx.Exact(data), mode: mode}) })
+	switch {
+	case p != "":
+		return "panic", "-"
+	case err != nil && errors.Is(err, sei.ErrRbspTrailingBitsMissing):
+		class = "missing"
+	case err != nil:
+		return "err", "-"
+	default:
+		class = "ok"
+	}
+	if len(sds) == 0 {
+		return class, "-"
+	}
+	ss := make([]string, len(sds))
+	for i := range sds {
+		ss[i] = hx.HexU(uint64(sds[i].Type())) + ":" + hx.Hex(sds[i].Payload())
+	}
+	return class, strings.Join(ss, ";")
 }
 
 // ---------------------------------------------------------------- generators
@@ -344,6 +421,12 @@ func checkList(ms []*rawMsg) {
 	if !sameList(ms, sds) {
 		fail("sei.ExtractSEIData", "roundtrip-differs", w, "extract(write msgs) = "+xl)
 		return
+	}
+	for mode := 0; mode < 3; mode++ {
+		if qc, ql := extractQuirk(b, mode); qc != xc || ql != xl {
+			fail("sei.ExtractSEIData", "depends-on-reader-kind", w, fmt.Sprintf("through a ReadSeeker of kind %d (0: last bytes together with EOF, 1: one byte per Read, 2: short reads) extract(write msgs) ends with %s %s, through bytes.Reader with %s on %s", mode, qc, ql, xc, hx.Hex(b)))
+			return
+		}
 	}
 	// cross-cutting oracles (hygiene.go): guard bytes, capacity, caller re-using its buffers, malformed input in between,
 	// messages unchanged by writing
